@@ -166,6 +166,21 @@ func (c *Ctx) arith(op token.Token, a, b Value, rt types.Type, spec bool) (res s
 		}
 		return c.wrap(rt, s, cheap)
 	}
+	// bit operations on two non-negative literals are folded
+	if x, ok := litInt(a.S); ok && x.Sign() >= 0 {
+		if y, ok := litInt(b.S); ok && y.Sign() >= 0 {
+			switch op {
+			case token.AND:
+				return sBig(new(big.Int).And(x, y)), precond
+			case token.OR:
+				return sBig(new(big.Int).Or(x, y)), precond
+			case token.XOR:
+				return sBig(new(big.Int).Xor(x, y)), precond
+			case token.AND_NOT:
+				return sBig(new(big.Int).AndNot(x, y)), precond
+			}
+		}
+	}
 	switch op {
 	case token.ADD:
 		return wrap(sx("+", a.S, b.S), true), precond
